@@ -18,12 +18,13 @@ func init() {
 			"C06.4 bad contacts refused: nodeIsBad=false ⇒ (NoSecurity ∨ IsSecure) ∧ ¬failedLastQuestionablePing (own and zero ID: C05.3); " +
 			"C06.5 blocked sources are dropped before processing (shared with C19.2).",
 		NotDecided: "'admitted whenever its bucket has room' (completeness: absence of other refusals cannot be shown without freezing the function bodies), time-dependent goodness windows (15 min).",
-		Assume: []string{"the bencode decoder fills krpc.Msg only from the datagram it is given"},
+		Assume:     []string{"the bencode decoder fills krpc.Msg only from the datagram it is given"},
 		Rules: []*Rule{
 			{ID: "C06.1", Doc: "closed set of admission sites with verified sources", Floor: 6, Run: c06r1},
 			{ID: "C06.2", Doc: "hearsay never reaches the table", Floor: 5, Run: c06r2},
 			{ID: "C06.3", Doc: "eviction guard", Floor: 3, Run: c06r3},
 			{ID: "C06.4", Doc: "bad contacts refused", Floor: 2, Run: c06r4},
+			{ID: "C06.6", Doc: "a transaction is registered only for the duration of its exchange and removed under the key it was registered with, so a late or mismatched response finds nothing (shared with C07.3)", Floor: 4, Run: c07r3},
 			{ID: "C06.5", Doc: "blocked sources dropped first", Floor: 3, Run: c19r2},
 		},
 	})
@@ -263,6 +264,14 @@ func c06r3(w *World, rr *RuleRun) {
 			rr.At(w, site, "the evicted entry is the bucket entry being visited", p.Parent() == site.Parent(), "victim "+p.Name())
 		}
 	}
+	w.checkIsGoodSummary(rr)
+}
+
+// checkIsGoodSummary: what IsGood(n)=true implies (shared by C06.3 and C05.5: the good-node count
+// counts exactly the entries for which this holds).
+func (w *World) checkIsGoodSummary(rr *RuleRun) {
+	a := w.tableAnchors()
+	lastResp := w.P.Field("", "node", "lastGotResponse")
 	// IsGood=true ⇒ ¬nodeIsBad ∧ has responded
 	sum := w.FE.Summary(a.isGood, 0, "true", 0)
 	okBad, okResp := len(sum) > 0, len(sum) > 0
@@ -302,7 +311,9 @@ func c06r4(w *World, rr *RuleRun) {
 	okSec, okPing := len(sum) > 0, len(sum) > 0
 	for _, alt := range sum {
 		sec := alt.Has("b", true, func(x *Term) bool { return isFieldTerm(x, noSec) }) ||
-			alt.Has("b", true, func(x *Term) bool { return x.Op == OpCall && (suffixName(x) == "IsSecure" || suffixName(x) == "NodeIdSecure") })
+			alt.Has("b", true, func(x *Term) bool {
+				return x.Op == OpCall && (suffixName(x) == "IsSecure" || suffixName(x) == "NodeIdSecure")
+			})
 		if !sec {
 			okSec = false
 		}
